@@ -30,7 +30,7 @@ fn interpret_tail(args: &Args, mut cmd: Vec<OsS>, shell: Option<Shell>) -> (r: R
 pub fn to_spawnable(&self) -> (r: TokioCommandWrap)
     ensures
         r.argv@ =~= expected_argv(self.program), // OBL:C18.to_spawnable.exact_program_and_arguments_in_order
-        r.wrappers@ =~= expected_wrappers(self.options), // OBL:C18.to_spawnable.group_session_and_sigmask_wrappers
+        r.wrappers@ =~= expected_wrappers(self.options), // OBL:C18+C08+C04.to_spawnable.group_session_and_sigmask_wrappers
 //@ loop 0 iter=vx_it
 let ghost vx_base = c.argv@; let ghost vx_args = ids(args@);
 invariant
